@@ -123,6 +123,11 @@ def shard(shard_i, nshards, payload):
             planted = None
             if i % 2:
                 faults = [f for f in vgen.plant_all(decls) if not f[1].endswith("rhs-enum-target")]
+                # every third of them a fault about two spellings of one name (duplicate element / value / twin), where
+                # the letter case of each occurrence matters most
+                names2 = [f for f in faults if f[0] in ("P0003", "P0005")]
+                if names2 and i % 6 == 5:
+                    faults = names2
                 if faults:
                     planted, _, decls, _ = rng.choice(faults)
             canon = vgen.render_unit(decls)
@@ -132,13 +137,13 @@ def shard(shard_i, nshards, payload):
                 continue
             codes0 = sorted(d["code"] for d in o0["diags"])
             good = True
-            for k in range(4):
-                text = vgen.recase_identifiers(canon, rng, 0.6) if k < 3 else vgen.render_unit(decls, oscat=rng)
+            for k in range(4 if planted not in ("P0003", "P0005") else 10):
+                text = vgen.recase_identifiers(canon, rng, rng.choice([0.3, 0.6, 0.9])) if k != 3 else vgen.render_unit(decls, oscat=rng)
                 if text == canon:
                     continue
                 o1 = probe.run({"op": "analyze", "files": [["c08.st", text]]})
                 res.evaluations += 1
-                dim_u = "idcase-unit" if k < 3 else "oscat-unit"
+                dim_u = "idcase-unit" if k != 3 else "oscat-unit"
                 res.count("dim:" + dim_u)
                 case = {"canonical": canon, "respelled": text, "dimension": dim_u, "planted": planted}
                 if "ok" not in o1:
